@@ -524,6 +524,7 @@ class C20(Check):
         of_01.PIPE_BUF = case["pb"]
         n = case["n"]
         status, died, cwb = "ok", [None], [False]
+        mtrace = []
         plan = {"want": [], "calls": 0, "refused": 0}
         class FakeSelect:
             """keeps select's contract: a closed socket (fileno() < 0) in any list is refused with ValueError, as by the real
@@ -579,6 +580,9 @@ class C20(Check):
                     if op["how"] == "close" and not socks[j].fatal_seen and len(queued[j]) > len(socks[j].accepted) - hello[j]: cwb[0] = True
                     if op["how"] == "close": cons[j].close()
                     else: cons[j].disconnect()
+                # every connection's state after EVERY whole operation
+                mtrace.append([[len(socks[k].accepted) - hello[k], sum(len(x) for x in ds._dataForConnection.get(cons[k], [])),
+                                int(bool(cons[k].disconnected))] for k in range(n)] + [int(bool(ds.sending))])
             # what the serving task does with a connection it finds disconnected (its read returns False): con.close()
             for j in range(n):
                 if cons[j].disconnected:
@@ -593,7 +597,7 @@ class C20(Check):
             except Exception as e: pend = ["?" + type(e).__name__]
             per.append({"accepted": socks[j].accepted[hello[j]:].hex(), "pending": pend, "disc": bool(cons[j].disconnected),
                         "offered_after_disc": socks[j].offered_after_fatal, "queued": queued[j].hex(), "downs": downs[j]})
-        return {"cons": per, "sending": bool(ds.sending), "status": status, "sender_died": died[0], "closed_with_backlog": cwb[0]}
+        return {"cons": per, "sending": bool(ds.sending), "status": status, "sender_died": died[0], "closed_with_backlog": cwb[0], "trace": mtrace}
 
     # ------------------------------------------------------------------ model
     def model_request2(self, case, obs):
@@ -647,7 +651,8 @@ class C20(Check):
             v["trace"] = obs["trace"]
             return v
         if case["part"] == "M":
-            return {"views": [dict({k: c[k] for k in ("accepted", "pending", "disc", "offered_after_disc")}, sending=obs["sending"]) for c in obs["cons"]]}
+            return {"views": [dict({k: c[k] for k in ("accepted", "pending", "disc", "offered_after_disc")}, sending=obs["sending"]) for c in obs["cons"]],
+                    "trace": obs["trace"]}
         v = {k: obs[k] for k in ("accepted", "pending", "disc", "sending", "offered_after_disc")}
         if case["part"] == "B": v["trace"] = obs["trace"]
         return v
@@ -655,7 +660,8 @@ class C20(Check):
     def model_obs(self, case, resp):
         if "error" in resp: return resp
         if case["part"] == "M":
-            return {"views": [{k: v[k] for k in ("accepted", "pending", "disc", "offered_after_disc", "sending")} for v in resp["views"]]}
+            return {"views": [{k: v[k] for k in ("accepted", "pending", "disc", "offered_after_disc", "sending")} for v in resp["views"]],
+                    "trace": resp["trace"]}
         keys = ("accepted", "send_buf", "closed", "close_events", "offered", "shut_wr", "trace") if case["part"] == "A" else ("accepted", "pending", "disc", "sending", "offered_after_disc")
         v = {k: resp[k] for k in keys}
         if case["part"] == "B": v["trace"] = resp["trace"]
